@@ -446,6 +446,7 @@ class Cache:
         self._timeout = 0  # Manually handle retries during initialization.
         self._local = threading.local()
         self._txn_id = None
+        self._txn_files = None
 
         if not op.isdir(directory):
             try:
@@ -714,18 +715,22 @@ class Cache:
     def _transact(self, retry=False, filename=None):
         sql = self._sql
         filenames = []
+        created = []
         _disk_remove = self._disk.remove
         tid = threading.get_ident()
         txn_id = self._txn_id
 
         if tid == txn_id:
             begin = False
+            # Nested: files are removed when the outermost transaction ends.
+            filenames, created = self._txn_files
         else:
             while True:
                 try:
                     sql('BEGIN IMMEDIATE')
                     begin = True
                     self._txn_id = tid
+                    self._txn_files = filenames, created
                     break
                 except sqlite3.OperationalError:
                     if retry:
@@ -734,6 +739,9 @@ class Cache:
                         _disk_remove(filename)
                     raise Timeout from None
 
+        if filename is not None:
+            created.append(filename)
+
         try:
             yield sql, filenames.append
         except BaseException:
@@ -741,15 +749,25 @@ class Cache:
                 assert self._txn_id == tid
                 self._txn_id = None
                 sql('ROLLBACK')
+                for name in created:
+                    _disk_remove(name)
             raise
         else:
             if begin:
                 assert self._txn_id == tid
                 self._txn_id = None
                 sql('COMMIT')
-            for name in filenames:
-                if name is not None:
-                    _disk_remove(name)
+                for name in filenames:
+                    if name is not None:
+                        _disk_remove(name)
+
+    def _remove_file(self, filename):
+        # Inside a transaction of this thread the row removal is not yet
+        # committed: remove the file when the outermost transaction commits.
+        if self._txn_id == threading.get_ident():
+            self._txn_files[0].append(filename)
+        else:
+            self._disk.remove(filename)
 
     def set(self, key, value, expire=None, read=False, tag=None, retry=False):
         """Set `key` and `value` item in cache.
@@ -1327,7 +1345,7 @@ class Cache:
             return default
         finally:
             if filename is not None:
-                self._disk.remove(filename)
+                self._remove_file(filename)
 
         if expire_time and tag:
             return value, db_expire_time, db_tag
@@ -1596,7 +1614,7 @@ class Cache:
                 continue
             finally:
                 if name is not None:
-                    self._disk.remove(name)
+                    self._remove_file(name)
             break
 
         if expire_time and tag:
